@@ -70,10 +70,15 @@ def run():
     res = {}
     if os.path.exists(RESULTS):
         res = {int(k): v for k, v in json.load(open(RESULTS)).items()}
+    redo = arg('-redo', '')  # re-run the survivors whose function or file name contains this text
+    if redo:
+        for k in [k for k, r in res.items() if r['status'] == 'survived' and (redo in r['func'] or redo in r['file'])]:
+            del res[k]
     q = queue.Queue()
     for s in sites:
         if s['id'] not in res:
             q.put(s)
+    print('to run:', q.qsize())
     lock = threading.Lock()
     t0 = time.time()
 
